@@ -7,10 +7,10 @@ here = os.path.dirname(os.path.dirname(os.path.abspath(__file__)))
 src = open(os.path.join(repo, "go.mod")).read()
 src = re.sub(r"^module .*$", "module verifh", src, count=1, flags=re.M)
 src += "\nrequire github.com/idena-network/idena-go v0.0.0\n\nreplace github.com/idena-network/idena-go => %s\n" % repo
-dst = os.path.join(here, "harness", "go.mod")
+dst = sys.argv[2] if len(sys.argv) > 2 else os.path.join(here, "harness", "go.mod")
 if not os.path.exists(dst) or open(dst).read() != src:
     open(dst, "w").write(src)
-gs = os.path.join(here, "harness", "go.sum")
+gs = dst[:-len(".mod")] + ".sum"
 s = open(os.path.join(repo, "go.sum")).read()
 if not os.path.exists(gs) or open(gs).read() != s:
     open(gs, "w").write(s)
